@@ -538,11 +538,12 @@ impl Lock {
                         return false;
                     }
                     if !self.conn_closed_ok() {
-                        out.violate(
-                            "C13",
-                            "connection_not_closed",
-                            format!("after `{}` the connection must be closed by the client but is still open", action),
-                        );
+                        let d = format!("after `{}` the connection must be closed by the client but is still open", action);
+                        out.violate("C13", "connection_not_closed", d.clone());
+                        if self.is_rtu() && matches!(self.last_peer_action, "bad_header" | "variant" | "split") {
+                            // on a serial line: a frame that does not verify / cannot be framed was not treated as one
+                            out.violate("C06", "connection_not_closed", d);
+                        }
                         return false;
                     }
                     if !self.is_rtu() {
@@ -592,6 +593,26 @@ impl Lock {
             let detail = format!("after `{}` (t={}): listener saw {:?}, model expects {:?}", action, now, got_states, exp_states);
             for p in props {
                 out.violate(p, "listener_sequence", detail.clone());
+            }
+            // the run ends here; before it does, see what the deviation means for a request (C10): while the
+            // channel is not connected - by the model - a request fails with no-connection at once
+            if !self.model.is_connected() && !self.model.is_done() {
+                if let Some(ch) = &self.rig.channel {
+                    const PROBE: usize = usize::MAX - 7;
+                    submit(ch, Style::Future, PROBE, &Req::ReadCoils { start: 0, count: 1 }, 1, 1000 * MS, &self.rig.comps);
+                    kernel::settle();
+                    let got = self.rig.comps.lock().unwrap().iter().find(|c| c.0 == PROBE).map(|c| c.2.clone());
+                    if got != Some(Outcome::NoConnection) {
+                        out.violate(
+                            "C10",
+                            "request_while_not_connected",
+                            format!("{}; a request submitted at this point (the channel is not connected by the model) {}", detail, match got {
+                                None => "stays pending instead of failing with no-connection".to_string(),
+                                Some(o) => format!("completed with {:?}", o),
+                            }),
+                        );
+                    }
+                }
             }
             return false;
         }
@@ -943,7 +964,8 @@ fn run_lockstep_inner(cfg: &ScenCfg, out: &mut RunOut, rtu: bool) {
                 } else if outstanding {
                     weighted(&[8, 6, 3, 2, 2, 1, 1, 1, 1])
                 } else {
-                    [5u32, 6, 7, 8, 2][choose(5) as usize]
+                    // (4: on a serial line noise - a frame with a bad CRC, an unknown function - also arrives while idle)
+                    [5u32, 6, 7, 8, 2, 4][choose(if l.is_rtu() { 6 } else { 5 }) as usize]
                 };
                 match choice {
                     0 => {
